@@ -246,6 +246,7 @@ let rec prog_of (steps : (action * char) list) (ret : bool) : hprog =
   | (a, pol) :: rest ->
     Do (a, fun r ->
         if res_is_error r then (match pol with 'e' -> Ret true | 'n' -> Ret false | _ -> prog_of rest ret)
+        else if pol = 's' then Ret false
         else prog_of rest ret)
 
 type svc_case = {
@@ -309,6 +310,138 @@ let svc_run (line : string) : string =
         (String.concat ";" (filter_map show_entry o.o_log))) c.conns in
   String.concat " | " parts ^ " || reg=" ^ c.regres
 
+(* ---------- end-to-end cases (see harness/cmd/h_e2e/main.go) ---------- *)
+let show_fval (v : fval) : string = string_of_bytes (dump_fval v)
+
+let show_recv (r : recv_res) : string =
+  match r with
+  | RvEOF -> "eof"
+  | RvDecodeErr -> "other:decode"
+  | RvStdError (k, a) ->
+    "std " ^ (match k with EInterfaceNotFound -> "I" | EMethodNotFound -> "M" | EMethodNotImplemented -> "N" | EInvalidParameter -> "P")
+    ^ " " ^ hex_of_bytes a
+  | RvError (name, ps) -> "err " ^ hex_of_bytes name ^ " " ^ (match ps with None -> "N" | Some r -> "R" ^ hex_of_bytes r)
+  | RvReply (ps, cont) -> Printf.sprintf "ok %d %s" (if cont then 4 else 0) (match ps with None -> "N" | Some r -> "R" ^ hex_of_bytes r)
+  | RvFuel -> "FUEL"
+
+let stops (r : string) : bool =
+  let pre p = String.length r >= String.length p && String.sub r 0 (String.length p) = p in
+  pre "eof" || pre "timeout" || pre "other"
+
+let e2e_run (line : string) : string =
+  let secs = split_on_string " | " line in
+  let is_op sec = match fields sec with
+    | ("call" | "plaincall" | "getinfo" | "getdescr" | "resolver-getinfo" | "resolve") :: _ -> true | _ -> false in
+  let c = parse_svc_case (String.concat " | " (List.filter (fun sec -> not (is_op sec) && (match fields sec with "transport" :: _ -> false | _ -> true)) secs)) in
+  let reg = (match c.reg with Some r -> r | None -> failwith "no svc") in
+  let hs = handlers_of c in
+  (* connection 0 = the client connection, connection 1 = the resolver's own connection *)
+  let server = [| cs_init None; cs_init None |] in
+  let inbound = [| []; [] |] in
+  let exchange (ci : int) (msg : n list) : unit =
+    let before = List.length server.(ci).cs_w.w_out in
+    server.(ci) <- step_conn reg hs server.(ci) (EvData msg);
+    let out = server.(ci).cs_w.w_out in
+    let rec drop n l = if n = 0 then l else (match l with [] -> [] | _ :: r -> drop (n - 1) r) in
+    inbound.(ci) <- inbound.(ci) @ drop before out in
+  let receive (ci : int) : string * recv_res option =
+    match cut_at (n_of_int 0) inbound.(ci) with
+    | None ->
+      if server.(ci).cs_closed = None then ("timeout", None) else ("eof", None)
+    | Some _ ->
+      let (r, c') = client_receive (nat_of_int 4096) { rbuf = inbound.(ci); chunks = [] } in
+      inbound.(ci) <- stream_of c';
+      (show_recv r, Some r) in
+  let out = ref [] in
+  let stop = ref false in
+  let helper (ci : int) (tag : string) (req : send_res) (sch : (n list * fkind) list) (fmt : fval list -> string) : unit =
+    match req with
+    | SSent msg ->
+      exchange ci msg;
+      let (s, r) = receive ci in
+      (match r with
+       | Some (RvReply (p, cont)) ->
+         (match helper_of sch (RvReply (p, cont)) with
+          | HOk fs -> out := (tag ^ "=ok " ^ fmt fs) :: !out
+          | HErr _ -> ())
+       | _ -> out := (tag ^ "=" ^ s) :: !out; if stops s then stop := true)
+    | _ -> out := (tag ^ "=senderr") :: !out in
+  List.iter (fun sec ->
+      if not !stop then
+        match fields sec with
+        | "call" :: flags :: m :: v :: nrecv :: _ ->
+          (match client_send (n_of_int (int_of_string flags)) (bytes_of_hex m) (parse_value_desc v) with
+           | SRefused what -> out := ("send=refused:" ^ hex_of_bytes what) :: !out
+           | SMarshalErr -> out := "send=marshal" :: !out
+           | SSent msg ->
+             exchange 0 msg;
+             let parts = ref ["send=ok"] in
+             (try
+                for _ = 1 to int_of_string nrecv do
+                  let (s, r) = receive 0 in
+                  parts := ("recv=" ^ s) :: !parts;
+                  if stops s then (stop := true; raise Exit);
+                  (match r with Some (RvReply (_, true)) -> () | _ -> raise Exit)
+                done
+              with Exit -> ());
+             out := String.concat " " (List.rev !parts) :: !out)
+        | "plaincall" :: m :: v :: _ ->
+          (match client_send N0 (bytes_of_hex m) (call_params (parse_value_desc v)) with
+           | SSent msg ->
+             exchange 0 msg;
+             let (s, r) = receive 0 in
+             (match r with
+              | Some (RvReply (p, _)) -> out := ("call=ok " ^ (match p with None -> "N" | Some x -> "R" ^ hex_of_bytes x)) :: !out
+              | _ -> out := ("call=" ^ s) :: !out; if stops s then stop := true)
+           | _ -> out := "call=senderr" :: !out)
+        | "getinfo" :: _ ->
+          helper 0 "info" get_info_request info_schema (fun fs -> String.concat " " (List.map show_fval fs))
+        | "getdescr" :: name :: _ ->
+          helper 0 "descr" (get_descr_request (bytes_of_hex name)) descr_schema (fun fs -> String.concat " " (List.map show_fval fs))
+        | "resolver-getinfo" :: _ ->
+          helper 1 "rinfo" resolver_info_request resolver_info_schema (fun fs -> String.concat " " (List.map show_fval fs))
+        | "resolve" :: iface :: _ ->
+          if bytes_of_hex iface = org_varlink_resolver then out := "addr=self" :: !out
+          else helper 1 "addr" (resolve_request (bytes_of_hex iface)) address_schema (fun fs -> String.concat " " (List.map show_fval fs))
+        | _ -> ()) secs;
+  let logs = Array.map (fun st -> "[" ^ String.concat ";" (filter_map show_entry (List.rev st.cs_log)) ^ "]") server in
+  String.concat " ; " (List.rev !out) ^ " || log0=" ^ logs.(0) ^ " log1=" ^ logs.(1)
+
+(* ---------- registration histories (see harness/cmd/h_reg/main.go) ---------- *)
+let reg_run (line : string) : string =
+  let secs = split_on_string " | " line in
+  let reg = ref (match fields (List.hd secs) with
+      | "svc" :: v :: p :: ver :: u :: d :: _ ->
+        new_service (bytes_of_hex v) (bytes_of_hex p) (bytes_of_hex ver) (bytes_of_hex u) (bytes_of_hex d)
+      | _ -> failwith "reg-run: no svc") in
+  let hs = (fun _ m _ -> Do (AStdError (EMethodNotImplemented, m), fun r -> Ret (res_is_error r))) in
+  let direct (req : send_res) : n list =
+    match req with
+    | SSent msg ->
+      let st = step_conn !reg hs (cs_init None) (EvData msg) in
+      st.cs_w.w_out
+    | _ -> [] in
+  let client (reply : n list) (sch : (n list * fkind) list) : string =
+    let (r, _) = client_receive (nat_of_int 4096) { rbuf = reply; chunks = [] } in
+    match helper_of sch r with
+    | HOk fs -> String.concat " " (List.map show_fval fs)
+    | HErr e -> show_recv e in
+  let out = List.map (fun sec ->
+      match fields sec with
+      | "reg" :: name :: descr :: _ ->
+        let (r', refused) = register !reg (bytes_of_hex name) (bytes_of_hex descr) in
+        reg := r'; if refused then "x" else "o"
+      | "listen" :: _ -> if !reg.r_running then "already" else (reg := set_running !reg true; "listening")
+      | "shutdown" :: _ -> if !reg.r_running then (reg := set_running !reg false; "stopped") else "notlistening"
+      | "info" :: _ ->
+        let rep = direct (client_send N0 (org_varlink_service @ [n_of_int 46] @ m_GetInfo) PNone) in
+        "info " ^ hex_of_bytes rep ^ (if !reg.r_running then " client " ^ client rep info_schema else "")
+      | "descr" :: name :: _ ->
+        let rep = direct (get_descr_request (bytes_of_hex name)) in
+        "descr " ^ hex_of_bytes rep ^ (if !reg.r_running then " client " ^ client rep descr_schema else "")
+      | _ -> failwith ("reg-run: bad op " ^ sec)) (List.tl secs) in
+  String.concat " ; " out
+
 let split_ws (l : string) : string list =
   List.filter (fun x -> x <> "") (String.split_on_char ' ' l)
 
@@ -345,12 +478,19 @@ let handle (cmd : string) (line : string) : string =
     (match enc_params (parse_value_desc d) with
      | None -> "ERR"
      | Some ps -> hex_of_bytes (encode_reply ps (cont = "1") (bytes_of_hex e)))
+  | "send-enc", [flags; m; d] ->
+    (match client_send (n_of_int (int_of_string flags)) (bytes_of_hex m) (parse_value_desc d) with
+     | SRefused what -> "REFUSED " ^ hex_of_bytes what ^ " -"
+     | SMarshalErr -> "ERR -"
+     | SSent msg -> hex_of_bytes msg)
   | "wire-run", cap :: chunks :: ops -> wire_run (int_of_string cap) chunks ops
   | _ -> failwith ("bad case for " ^ cmd ^ ": " ^ line)
 
 let handle_line (cmd : string) (line : string) : string =
   match cmd with
   | "svc-run" -> svc_run line
+  | "e2e-run" -> e2e_run line
+  | "reg-run" -> reg_run line
   | _ -> handle cmd line
 
 let () =
